@@ -679,6 +679,7 @@ const preamble = `(set-option :produce-models true)
 (declare-fun elemI (Int) Int)
 (assert (forall ((b Int) (i Int)) (! (and (= (elemB (elem b i)) b) (= (elemI (elem b i)) i) (< (elem b i) 0)) :pattern ((elem b i)))))
 (assert (forall ((a Int)) (! (=> (< a 0) (= (elem (elemB a) (elemI a)) a)) :pattern ((elemB a)) :pattern ((elemI a)))))
+(declare-fun uf1 (Int Int) Int)
 (declare-fun cntzmark (Int Int Int) Bool)
 (assert (forall ((b Int) (o Int) (n Int)) (! (cntzmark b o n) :pattern ((cntzmark b o n)))))
 (declare-fun at (Int Int Int) Int)
@@ -690,7 +691,6 @@ const preamble = `(set-option :produce-models true)
 (declare-fun str_len (Int) Int)
 (declare-fun box (Int Int) Int)
 (declare-fun errIs (Int Int) Bool)
-(declare-fun uf1 (Int Int) Int)
 (declare-fun uf2 (Int Int Int) Int)
 (assert (= (card ((as const (Array Int Bool)) false)) 0))
 `
